@@ -57,8 +57,8 @@ TRUSTED = ['exact stream: the dyadic lattice is chosen so that every float opera
            'integer widths (int16 TSC indices, int32/uint32 CIC) not modelled: grids wider than 2^15 out of scope']
 ASSUMPTIONS = ['numba round() is round-half-even; negative indices wrap once; py_func raises IndexError exactly where '
                'the compiled kernel would write out of bounds',
-               'kernel theorems assume every grid dimension >= 2 (or third axis exactly 1) and grid coordinate in '
-               '[-1/2, g+1/2]']
+               'kernel theorems assume every grid dimension >= 1 and grid coordinate p >= -g + 3/2 on every axis '
+               '(no upper limit: the wrap loop removes whole periods); positions in [0, Box] with offset >= 0 satisfy it']
 
 GUARD = 2          # guard planes on each side of the grid along axis 0 (observe stray writes)
 MANT = {'f4': 24, 'f8': 53}
